@@ -88,8 +88,12 @@ def file_item(out, item, rep, tmpdir):
                 argv.append("-f")
             if flag:
                 argv.append(flag)
-            outs = {k: os.path.join(tmpdir, "cli." + k) for k in ("csv", "json", "bpseq")}
-            argv += ["--csv", outs["csv"], "--json", outs["json"], "--bpseq", outs["bpseq"]]
+            outs = {k: os.path.join(tmpdir, "cli." + k) for k in ("csv", "json", "bpseq", "pml", "inter_stem_csv", "stems_csv")}
+            for p in outs.values():
+                if os.path.exists(p):
+                    os.remove(p)
+            argv += ["--csv", outs["csv"], "--json", outs["json"], "--bpseq", outs["bpseq"], "--pml", outs["pml"],
+                     "--inter-stem-csv", outs["inter_stem_csv"], "--stems-csv", outs["stems_csv"]]
             buf = io.StringIO()
             old = sys.argv
             sys.argv = argv
@@ -101,8 +105,11 @@ def file_item(out, item, rep, tmpdir):
             emit(out, iid, kind + "_stdout", rep, buf.getvalue(), has_pairs)
             if flag == "-a":
                 for k, p in outs.items():
-                    with open(p, "rb") as f:
-                        emit(out, iid, "cli_" + k, rep, f.read(), has_pairs)
+                    if os.path.exists(p):
+                        with open(p, "rb") as f:
+                            emit(out, iid, "cli_" + k, rep, f.read(), has_pairs)
+                    else:
+                        emit(out, iid, "cli_" + k, rep, "<not written>", False)
 
 
 def bpseq_item(out, item, rep):
@@ -145,8 +152,21 @@ def main():
         import pulp
 
         default_solver = pulp.LpSolverDefault
+        order_seed = os.environ.get("VERIF_C14_ORDER")
+        stop_after = os.environ.get("VERIF_C14_STOP_AFTER")
+        stopped = False
         for rep in (0, 1):
-            for item in manifest["items"]:
+            items = list(manifest["items"])
+            if order_seed is not None:
+                # every interpreter visits the items in its own seeded order (and in another one the second
+                # time), so that an output that depends on what ran before it in the process shows up as a
+                # digest difference between interpreters or repetitions
+                import random
+
+                random.Random(int(order_seed) * 2 + rep).shuffle(items)
+            for item in items:
+                if stopped:
+                    break
                 t1 = time.time()
                 try:
                     if item["type"] == "file":
@@ -158,6 +178,8 @@ def main():
                 finally:
                     pulp.LpSolverDefault = default_solver
                 out.write("T %s %d %.2f\n" % (item["id"], rep, time.time() - t1))
+                if stop_after == "%s:%d" % (item["id"], rep):
+                    stopped = True
         out.write("E wall=%.1f\n" % (time.time() - t0))
 
 
